@@ -45,6 +45,7 @@ def reset_world(reset_scheduler=True):
     _batching._debug_batch_state.batches.clear()
     A.profiler.reset()
     simenv.capture.reset()
+    prog.FALSY[0] = False
 
 
 class SimItem(A.BatchItemBase):
@@ -469,6 +470,7 @@ class RealBackend(object):
             A.profiler.reset()
         else:
             reset_world(reset_scheduler=spec.get("fresh_scheduler", True))
+            prog.FALSY[0] = bool(spec.get("falsy_errors"))
             opts = _adebug.options
             for k, v in spec.get("options", {}).items():
                 if k in DEFAULT_OPTIONS:
@@ -1297,7 +1299,7 @@ class RealBackend(object):
         ordn = self.kind_flushes[kind]
         toks = [it.tok for it in batch.items]
         rec = {"kind": kind, "gen": batch.gen, "tokens": toks, "at": len(self.trace),
-               "sched": self.sched_flush is batch, "depth": len(self.extents)}
+               "sched": self.sched_flush is batch, "depth": len(self.extents), "set": {}, "how": None}
         self.flushes.append(rec)
         self.ev("flush", batch.bid, tuple(toks))
         if self.current[kind] is batch:
@@ -1326,11 +1328,12 @@ class RealBackend(object):
                 self.fired("flush_cancels_own_batch")
                 e = SimError("fc:%d#%d" % (kind, ordn))
                 self.errors[e.tag] = e
+                rec["how"] = ("cancelled", e)
                 batch.cancel(e)
                 rec["end"] = len(self.trace)
                 return
             if plan and plan.get("raise_at") == idx:
-                self._flush_raise(kind, ordn, plan)
+                self._flush_raise(kind, ordn, plan, rec)
             f = self.item_faults.get("%d:%s" % (kind, it.key))
             if f == "unset":
                 self.fired("item_unset")
@@ -1339,8 +1342,10 @@ class RealBackend(object):
                 self.fired("item_error")
                 e = SimError("ie:%s" % it.tok)
                 self.errors[e.tag] = e
+                rec["set"][it.tok] = ("E", e)
                 it.set_error(e)
             else:
+                rec["set"][it.tok] = ("V", "%d:%s" % (kind, it.key))
                 it.set_value("%d:%s" % (kind, it.key))
         if plan and plan.get("reenter") and not plan.get("reenter_first"):
             self.fired("flush_reenters")
@@ -1368,7 +1373,8 @@ class RealBackend(object):
                 if ni.batch is batch:
                     self.viol("C11", "fresh-batch", "item created during flush joined the batch being flushed")
             if plan.get("raise_at") is not None and plan["raise_at"] >= len(items):
-                self._flush_raise(kind, ordn, plan)
+                self._flush_raise(kind, ordn, plan, rec)
+        rec["how"] = ("returned", None)
         rec["end"] = len(self.trace)
 
     def _reenter(self, kind, ordn, k2):
@@ -1386,7 +1392,7 @@ class RealBackend(object):
         except SimError:
             pass
 
-    def _flush_raise(self, kind, ordn, plan):
+    def _flush_raise(self, kind, ordn, plan, rec=None):
         tag = "fe:%d#%d" % (kind, ordn)
         if plan.get("base"):
             self.fired("flush_raises_base")
@@ -1395,6 +1401,8 @@ class RealBackend(object):
             self.fired("flush_raises")
             e = SimError(tag)
         self.errors[tag] = e
+        if rec is not None:
+            rec["how"] = ("raised", e)
         raise e
 
     # ---- running ---------------------------------------------------------------------------------------
